@@ -67,6 +67,11 @@ fn map_alphabet(prop: Prop, u: usize) -> Vec<[u8; 4]> {
     }
     if matches!(prop, Prop::C04) {
         add(OP_FROM_ITER, 200, 7, 0);
+        add(OP_CLONE, 255, 0, 0); // clone_from into the secondary (a plain clone while there is none)
+        add(OP_CONSUME, 0, 100, 50); // into_iter: one step, then nth on the rest
+        add(OP_CONSUME, 170, 100, 66); // into_values: one step, then last()
+        add(OP_DRAIN, 0, 100, 82); // drain: one step, then fold
+        add(OP_INSERT_UNCHECKED, key_byte(0, u), 9, 0);
     }
     al
 }
@@ -97,6 +102,11 @@ fn set_alphabet(prop: Prop, u: usize) -> Vec<[u8; 4]> {
         add(10, 0, 128, 0);
         add(12, 0, 0, 0);
         add(16, 255, 0, 0); // sub
+    }
+    if matches!(prop, Prop::C04) {
+        add(12, 255, 0, 0); // clone_from
+        add(10, 0, 100, 50); // into_iter: one step, then nth
+        add(8, 0, 100, 66); // drain: one step, then last()
     }
     al
 }
